@@ -143,7 +143,7 @@ Next ==
      /\ ~EndOf(HandOf(tid, side))
      /\ LET H == HandOf(tid, side)
             ev == H.steps[l + 1]
-        IN /\ Force(StepOK(tid, Off(side) + l + 1, CfgOf(H), S, ev))
+        IN /\ Force(StepOK(tid, Off(side) + l + 1, CfgOf(H), S, ev, <<>>, FALSE))
            /\ S' = NextState(S, ev)
            /\ l' = l + 1
            /\ UNCHANGED <<tid, side>>
